@@ -426,7 +426,7 @@ class Delta:
             elif len(right_path) > len(left_path):
                 right_path = right_path[:len(left_path)]
             for l_elem, r_elem in zip(left_path, right_path):
-                if type(l_elem) != type(r_elem) or type(l_elem) in None:
+                if type(l_elem) != type(r_elem) or l_elem is None:
                     l_elem = str(l_elem)
                     r_elem = str(r_elem)
                 try:
